@@ -380,7 +380,141 @@ where
     }
 }
 
-fn cases<B: Bk>(tier: Tier) -> Vec<Case> {
+// ---------------------------------------------------------------------------------------------
+// the same operations as subjects of C11 / C12 / C17: exact-size scratch windows, several pre-fills
+// ---------------------------------------------------------------------------------------------
+
+/// Runs every block of the case once per pre-fill with a scratch window of exactly the operation's own size query
+/// (between canaries) and demands: no panic, nothing written outside the window, result bytes identical for all fills.
+/// (The value of the result is the business of `exec`.)
+pub fn exec_scratch<B: Bk>(c: &Case, seed: u64, rec: &mut Rec)
+where
+    Module<B>: HalAll<B>,
+{
+    use crate::ops::{Opts, ScratchMode, with_scratch};
+    let n = c.n;
+    let m = B::module(n);
+    let mref: &Module<B> = &m;
+    let own_bytes = match c.op {
+        NOp::Normalize | NOp::NormalizeAssign => mref.vec_znx_normalize_tmp_bytes(),
+        NOp::Lsh | NOp::LshAssign | NOp::LshAddInto | NOp::LshSub => mref.vec_znx_lsh_tmp_bytes(),
+        NOp::Rsh | NOp::RshAssign | NOp::RshAddInto | NOp::RshSub => mref.vec_znx_rsh_tmp_bytes(),
+        _ => mref.vec_znx_big_normalize_tmp_bytes(),
+    };
+    let ts = tuples(c, seed);
+    let nblocks = ts.len().div_ceil(n);
+    let mut rng = Rng::new(seed, fnv(format!("{:?}", c).as_bytes()));
+    rec.distinct(fnv(format!("{:?}", c).as_bytes()));
+    rec.sample(|| serde_json::to_value(c).unwrap());
+    let k = c.offset.unsigned_abs() as usize;
+    let acc = c.op.accumulates();
+    for blk in 0..nblocks {
+        let lo = blk * n;
+        let hi = (lo + n).min(ts.len());
+        let mut a = VecZnx::alloc(n, 1, c.a_size);
+        let mut abig: Option<BigBuf<B>> = None;
+        if c.op.is_big() {
+            let mut bb = big_alloc::<B>(mref, 1, c.a_size);
+            for j in 0..c.a_size {
+                let xs: Vec<i128> = (0..n).map(|i| if lo + i < hi { ts[lo + i][j] } else { 0 }).collect();
+                bb.set(0, j, &xs);
+            }
+            abig = Some(bb);
+        } else {
+            for j in 0..c.a_size {
+                let s = a.at_mut(0, j);
+                for i in 0..n {
+                    s[i] = if lo + i < hi { ts[lo + i][j] as i64 } else { 0 };
+                }
+            }
+        }
+        let mut r0 = VecZnx::alloc(n, 1, c.r_size);
+        if c.op.is_assign() {
+            r0 = vclone(&a);
+        } else if acc != 0 {
+            for j in 0..c.r_size {
+                for x in r0.at_mut(0, j).iter_mut() {
+                    *x = rng.digit(c.b_out + 1);
+                }
+            }
+        } else {
+            garbage(r0.data.as_mut_slice(), blk & 1);
+        }
+        let mut outs: Vec<Vec<u8>> = vec![];
+        for fill in [2usize, 0, 1] {
+            let mut r = vclone(&r0);
+            let mut issues: Vec<String> = vec![];
+            let o = Opts { garbage: fill, scratch: ScratchMode::Exact(fill), seed };
+            let res = guarded(|| {
+                with_scratch::<B, _>(own_bytes, &o, &mut issues, |sc| match c.op {
+                    NOp::Normalize => mref.vec_znx_normalize(&mut r, c.b_out, c.offset, 0, &a, c.b_in, 0, sc),
+                    NOp::NormalizeAssign => mref.vec_znx_normalize_assign(c.b_in, &mut r, 0, sc),
+                    NOp::Lsh => mref.vec_znx_lsh(c.b_in, k, &mut r, 0, &a, 0, sc),
+                    NOp::LshAssign => mref.vec_znx_lsh_assign(c.b_in, k, &mut r, 0, sc),
+                    NOp::LshAddInto => mref.vec_znx_lsh_add_into(c.b_in, k, &mut r, 0, &a, 0, sc),
+                    NOp::LshSub => mref.vec_znx_lsh_sub(c.b_in, k, &mut r, 0, &a, 0, sc),
+                    NOp::Rsh => mref.vec_znx_rsh(c.b_in, k, &mut r, 0, &a, 0, sc),
+                    NOp::RshAssign => mref.vec_znx_rsh_assign(c.b_in, k, &mut r, 0, sc),
+                    NOp::RshAddInto => mref.vec_znx_rsh_add_into(c.b_in, k, &mut r, 0, &a, 0, sc),
+                    NOp::RshSub => mref.vec_znx_rsh_sub(c.b_in, k, &mut r, 0, &a, 0, sc),
+                    NOp::BigNormalize => {
+                        mref.vec_znx_big_normalize(&mut r, c.b_out, c.offset, 0, &abig.as_ref().unwrap().v, c.b_in, 0, sc)
+                    }
+                    NOp::BigNormalizeAddAssign => {
+                        mref.vec_znx_big_normalize_add_assign(&mut r, c.b_out, c.offset, 0, &abig.as_ref().unwrap().v, c.b_in, 0, sc)
+                    }
+                    NOp::BigNormalizeSubAssign => {
+                        mref.vec_znx_big_normalize_sub_assign(&mut r, c.b_out, c.offset, 0, &abig.as_ref().unwrap().v, c.b_in, 0, sc)
+                    }
+                    NOp::BigNormalizeNegate => {
+                        mref.vec_znx_big_normalize_negate(&mut r, c.b_out, c.offset, 0, &abig.as_ref().unwrap().v, c.b_in, 0, sc)
+                    }
+                })
+            });
+            rec.evals(1);
+            let inner = json!({"block": blk, "fill": fill, "scratch_bytes": own_bytes});
+            if let Err(msg) = res {
+                let kind = if msg.contains("scratch") || msg.contains("Attempted to take") { "scratch_too_small" } else { "panic" };
+                rec.fail(json!({"op": format!("{:?}", c.op), "backend": B::NAME, "kind": kind, "case": c, "inner": inner, "panic": msg}));
+                return;
+            }
+            for w in issues {
+                rec.fail(json!({"op": format!("{:?}", c.op), "backend": B::NAME, "kind": "scratch_overrun", "case": c, "inner": inner, "why": w}));
+            }
+            outs.push(r.data.to_vec());
+        }
+        if outs.iter().any(|x| *x != outs[0]) {
+            rec.fail(json!({"op": format!("{:?}", c.op), "backend": B::NAME, "kind": "scratch_dependent_result", "case": c,
+                "inner": {"block": blk, "scratch_bytes": own_bytes},
+                "why": "result bytes differ between scratch windows pre-filled with zeros, the NaN pattern and large values"}));
+            return;
+        }
+        rec.outcome(fnv(&outs[0]));
+    }
+}
+
+/// the big-accumulator normalisations (the only HAL scratch users not driven by the generic C11/C12 executors)
+pub fn big_scratch_cases<B: Bk>(tier: Tier) -> Vec<Case> {
+    cases::<B>(tier)
+        .into_iter()
+        .filter(|c| c.op.is_big() && (c.alphabet == "boundary" || (c.b_in <= 2 && c.b_out <= 3 && c.a_size <= 2)))
+        .collect()
+}
+
+pub fn fam_big_scratch<B: Bk>(run: &mut Run)
+where
+    Module<B>: HalAll<B>,
+{
+    let seed = run.seed;
+    run.family(
+        &format!("big_normalize_scratch/{}", B::NAME),
+        "vec_znx_big_normalize / _add_assign / _sub_assign / _negate for every (radix pair, sizes, offset) of C08's boundary grid and the small exhaustive digit tuples: scratch window of exactly vec_znx_big_normalize_tmp_bytes between canaries, pre-filled with zeros, the NaN pattern and large values; no panic, no write outside the window, result bytes identical for all fills",
+        big_scratch_cases::<B>(run.tier),
+        |c, rec| exec_scratch::<B>(c, seed, rec),
+    );
+}
+
+pub fn cases<B: Bk>(tier: Tier) -> Vec<Case> {
     let mut out = vec![];
     let ops = [
         NOp::Normalize,
